@@ -311,7 +311,7 @@ func realCLIHangs(ctx *Ctx, text string, in *Input) (bool, string) {
 func init() {
 	Register(&Checker{
 		ID: "C13", Level: "fault_enumeration", Engine: "A",
-		Rule: "fault = damage to the grammar file handed to yaccgo while its lexer task and parser task run over their channel: EVERY truncation point of every base text (the repository's examples + rendered grammars of all families), then seeded byte substitutions/insertions/deletions from the grammar's own alphabet and duplicated/dropped/swapped 16-byte sectors. Each damaged text runs through generate (go, go -o -u, typescript) or debug under a tick budget of 200 x ticks(base) + 1e6. distinct_nontrivial = distinct damaged texts that were run to an outcome.",
+		Rule:     "fault = damage to the grammar file handed to yaccgo while its lexer task and parser task run over their channel: EVERY truncation point of every base text (the repository's examples + rendered grammars of all families), then seeded byte substitutions/insertions/deletions from the grammar's own alphabet and duplicated/dropped/swapped 16-byte sectors. Each damaged text runs through generate (go, go -o -u, typescript) or debug under a tick budget of 200 x ticks(base) + 1e6. distinct_nontrivial = distinct damaged texts that were run to an outcome.",
 		NumCases: func(ctx *Ctx) int { c13Bases(ctx); return c13cum[len(c13cum)-1] + c13Edits(ctx) },
 		Gen:      genC13, Exec: execC13,
 		FaultKeys: []string{"fault_truncate", "fault_flip", "fault_insert", "fault_insert-rune", "fault_delete", "fault_dupsector", "fault_dropsector", "fault_swapsector", "fault_flip+truncate"},
